@@ -152,6 +152,16 @@ def degenerate_rows(rng, ys, extra, with_point=False):
     combination of ys with non-negative multipliers (the shape tactic 5 has to get right)."""
     px = {y: rng.choice([0, 0, 1, -1]) for y in ys}
     rows = []
+    if rng.random() < 0.5:
+        # the first two rows, (4,1) and (3,2), do NOT bound y+z with non-negative multipliers (their multipliers are -1/5, 3/5), although
+        # the multipliers of the TRANSPOSED system (1/5, 1/5) are non-negative; (4,1) with (1,2) does
+        a, b = (ys[0], ys[1]) if rng.random() < 0.5 else (ys[1], ys[0])
+        for ca, cb in ((4, 1), (3, 2), (1, 2)):
+            co = {a: ca, b: cb}
+            if extra and rng.random() < 0.5:
+                co[extra] = rng.choice([-1, 1, 3])
+            rows.append((co, sum(c * px.get(v, 0) for v, c in co.items())))
+        return (rows, px) if with_point else rows
     for _ in range(rng.randint(3, 4)):
         co = {ys[0]: rng.choice([1, 2, 3, -1]), ys[1]: rng.choice([0, 1, 1, 2, -1])}
         co = {v: c for v, c in co.items() if c}
@@ -199,6 +209,8 @@ def pair_raw(rng, schema, dyadic=0.0):
     elif schema == "tlp_degenerate":
         # the consumer's assumption needs a bound on a combination of BOTH producer outputs, and the producer's guarantees meet in one point
         a = {v: rng.choice([1, 2, 3]) * rng.choice([1, 1, -1]) for v in ("y", "z")}
+        if rng.random() < 0.5:
+            a = {"y": 1, "z": 1} if rng.random() < 0.6 else {"y": 2, "z": 2}
         d1 = {"inv": ["i"], "outv": ["y", "z"], "a": [({"i": 1}, 0)] + ([({"i": -1}, rng.randint(0, 3))] if rng.random() < 0.5 else []),
               "g": degenerate_rows(rng, ["y", "z"], "i")}
         d2 = {"inv": ["y", "z", "s"], "outv": ["p"], "a": [(dict(a, s=rng.choice([-1, 1, 2])), rng.randint(2, 10))],
